@@ -85,4 +85,14 @@ CLAIMED = {
   "note": "Precondition (serialises before) is checked and counted, not assumed.",
   "technique": "property-based testing with before/after metamorphic oracle and idempotence law",
  },
+ "C12": {
+  "text": "clone_node: forest model in lock-step (C05 machinery); the clone must be parentless, equal to the model's copy (adjacent text merged iff consolidation is on), made of never-seen handles, and a generated mutation history confined to one side must leave the whole store equal to the model, i.e. the other side untouched. clone_with_prefixes: declarations superset, and if the source tree serialises the clone serialises alone to the same expanded names (independent reader). Xot::clone: equal read-backs, independence in both directions.",
+  "note": "Trusted: forest model and xmltok reader.",
+  "technique": "model-based stateful property-based testing + independent-reader oracle",
+ },
+ "C18": {
+  "text": "Generated trees rich in whitespace-only / mixed text (adjacent text siblings, non-XML Unicode spaces, nested xml:space values) and any start node: the nodes removed must be exactly those selected by the model predicate; the whole store is compared with the reference forest (handles included) and a second call must be a no-op.",
+  "note": "Trusted: model predicate written from the property statement.",
+  "technique": "model-based property-based testing with idempotence law",
+ },
 }
